@@ -127,8 +127,11 @@ theorem wildcardMatch_eq_globB (p s : Bytes) : wildcardMatch p s = globB p s := 
         simp only [wildcardMatch, beq_self_eq_true, if_true, List.isEmpty_nil, globB]
         exact (anySuffix_isEmpty s).symm
       | cons q r =>
-        rw [wildcardMatch, globB]
-        simp only [beq_self_eq_true, if_true, List.isEmpty_cons, Bool.false_eq_true, if_false, hfun]
+        have e1 : wildcardMatch (cSTAR :: q :: r) s = anySuffix (wildcardMatch (q :: r)) s := by
+          simp [wildcardMatch]
+        have e2 : globB (cSTAR :: q :: r) s = anySuffix (globB (q :: r)) s := by
+          simp [globB]
+        rw [e1, e2, hfun]
     · cases s with
       | nil =>
         have hb : (p == cSTAR) = false := by simpa using hp
